@@ -41,14 +41,14 @@ Print Assumptions C12_entry_throw_marker_probed.
 (* ... and in the model that follows that probe: when the entry of submachine state s is left through an exception -
    whatever threw: the front-end's on_entry, an initial state's entry at any depth, a behaviour run for an event that a
    behaviour submitted - the submachine's processing marker is clear afterwards *)
-Theorem C12_entry_throw_clears_marker_back : forall cf mc children fuel s ev k co rn g rn' g',
+Theorem C12_entry_throw_clears_marker_back : forall cf contained mc children fuel s ev k co rn g rn' g',
   entry_throw_resets cf = true -> child children s = Some co ->
-  exec_entry cf mc children fuel s ev k rn g = (None, rn', g') ->
+  exec_entry cf contained mc children fuel s ev k rn g = (None, rn', g') ->
   forall kn, nth s (kids rn') None = Some kn -> processing kn = false.
 Proof. exact back_entry_throw_clears_marker. Qed.
 Print Assumptions C12_entry_throw_clears_marker_back.
 
-Theorem C12_entry_throw_clears_marker_mp11 : forall cf mc children contained fwd fuel s ev k co rn g rn' g',
+Theorem C12_entry_throw_clears_marker_mp11 : forall cf contained mc children fwd fuel s ev k co rn g rn' g',
   mp11_entry_throw_resets = true -> mchild children s = Some co ->
   mexec_entry_gen cf contained mc children fwd fuel s ev k rn g = (None, rn', g') ->
   forall kn, nth s (kids rn') None = Some kn -> processing kn = false.
